@@ -36,7 +36,7 @@ ASSUMPTIONS = [
 ]
 SETTINGS: Dict[str, Dict[str, Any]] = {
     "quick": {"inputs": 4, "budget_s": 90, "minimums": {"cli_runs": 540, "nontrivial": 400, "inverted_cut_runs": 20, "runs_with_config_method_schedule": 28}, "required_tags": {"tag_country": list(COUNTRIES), "tag_filter": ["none", "from", "to", "from+to"]}},
-    "thorough": {"inputs": 32, "budget_s": 480, "minimums": {"cli_runs": 4000, "nontrivial": 3200, "inverted_cut_runs": 200, "runs_with_config_method_schedule": 220}, "required_tags": {"tag_country": list(COUNTRIES), "tag_filter": ["none", "from", "to", "from+to"]}},
+    "thorough": {"inputs": 32, "budget_s": 480, "minimums": {"cli_runs": 3000, "nontrivial": 2500, "inverted_cut_runs": 150, "runs_with_config_method_schedule": 150}, "required_tags": {"tag_country": list(COUNTRIES), "tag_filter": ["none", "from", "to", "from+to"]}},
 }
 SHAPES = ["all-types", "inverted-dates", "same-instant-transfer-then-sale", "multi-asset-sparse", "fully-sold+income-only", "single-asset", "multi-asset", "sparse-years", "mixed-offsets"]
 
